@@ -195,7 +195,9 @@ def build(spec):
 
 
 # malformed *undeclared* items under CFGF_IGNORE_UNKNOWN: (tokens, index of the first token that cannot continue any well-formed item; None = end of input)
-SKIP_BAD = [(['unk', ','], 1), (['unk', ')'], 1), (['unk', '}'], 1), (['unk', 'ttl', '='], 2), (['unk', 'ttl', 'x'], 2), (['unk', 'ttl', ','], 2), (['unk', '=', ','], 2),
+# (the same family also holds declared-function misuse: include() without / with too many arguments must be reported, not just refused)
+SKIP_BAD = [(['include', '(', ')'], 2), (['include', '(', 'a', ',', 'b', ')'], 5), (['include', '(', ')', 'i', '=', '2'], 2),
+            (['unk', ','], 1), (['unk', ')'], 1), (['unk', '}'], 1), (['unk', 'ttl', '='], 2), (['unk', 'ttl', 'x'], 2), (['unk', 'ttl', ','], 2), (['unk', '=', ','], 2),
             (['unk', '=', ')'], 2), (['unk', '+=', ')'], 2), (['unk', '+=', '='], 2), (['unk', '(', 'a'], None), (['unk', '(', 'a', ','], None), (['unk', '{', 'x', '=', '1'], None),
             (['unk', 'ttl', '{', 'deep', '{', '}'], None), (['unk', '=', '{', '1', ','], None), (['unk', '='], None), (['unk'], None), (['unk', 'ttl'], None),
             (['unk', '{', 'a', '=', '"open'], None)]
@@ -234,7 +236,7 @@ def skip_text(spec):
 
 
 def skip_script(spec):
-    decls = [D('i', 'int', default=0), D('one', 'sec', 0, sub=[D('z', 'int', default=0)])]
+    decls = [D('i', 'int', default=0), D('one', 'sec', 0, sub=[D('z', 'int', default=0), D('include', 'func', cbs='I')]), D('include', 'func', cbs='I')]
     lines, sid = schema.emit_schema(decls)
     text, _ = skip_text(spec)
     return '\n'.join(lines + ['init 0 %d %d' % (sid, core.F_IGNORE_UNKNOWN), 'parse_buf 0 %s' % hx(text)])
